@@ -311,6 +311,18 @@ def call(self, e, st):
             for _, s2 in self.eval_args(e, st):          # the arguments are still evaluated (for their effects)
                 yield self.spec_eval(cm[key], s2), s2
             return
+    # xs.extend(<factory>() for _ in range(n)) with the factory modelled as "<new list>": n new, pairwise distinct, empty lists
+    if cm and not self.spec and isinstance(f, ast.Attribute) and f.attr == "extend" and len(e.args) == 1 \
+            and isinstance(e.args[0], ast.GeneratorExp) and isinstance(e.args[0].elt, ast.Call) \
+            and cm.get(ast.unparse(e.args[0].elt.func)) == "<new list>" and len(e.args[0].generators) == 1 \
+            and not e.args[0].generators[0].ifs:
+        recv, s1 = self.ev1(f.value, st)
+        if isinstance(recv, Val) and isinstance(recv.t, List) and isinstance(recv.t.elt, List):
+            self.assume_log(f"call model: {ast.unparse(e.args[0].elt.func)}() allocates a new empty list")
+            rows = self.bulk_empty_lists(e.args[0], s1, Seq(recv.t.elt), any_elt=True)
+            self.list_extend(s1, recv, self.view_of(rows, s1))
+            yield none_val(), s1
+            return
     # specification functions
     if isinstance(f, ast.Name) and self.spec and (f.id in SPEC_NAMES or f.id in self.reg.spec_fns) \
             and f.id not in st.env:
@@ -1155,7 +1167,7 @@ def next_of_genexp(self, g, st):
         yield v, out
 
 
-def bulk_empty_lists(self, g, st, want):
+def bulk_empty_lists(self, g, st, want, any_elt=False):
     """tuple(deque() for _ in src): len(src) freshly allocated, pairwise distinct, empty lists/deques."""
     lt = want.elt
     view, bind, ifs, s1 = self.comp_view(g, st)
